@@ -18,7 +18,7 @@ import os
 # proposed_fixes/kfdc_scale_free_cap.diff is applied to /repo: the Coq model then uses the scale-free cap.
 SCALE_FREE_CAP = os.environ.get("VERIF_KFDC_SCALE_FREE_CAP", "0") == "1"
 
-PREFIX_FAM = {"edge": 0, "pi": 1, "weights": 2, "used_edge": 7, "selected_edge": 8}
+PREFIX_FAM = {"edge": 0, "pi": 1, "weights": 2, "gamma": 4, "used_edge": 7, "selected_edge": 8}
 
 
 def opts_of(m):
@@ -79,6 +79,10 @@ def colkey_cyc(m, ids):
             if p == "weights":
                 return (2, i)
             return (PREFIX_FAM[p], ids[i[0]], ids[i[1]], i[2])
+        if p == "slack":
+            return (3, i)
+        if p == "ee":
+            return (5, ids[i[0]], ids[i[1]])
         if p == "distance":
             return (9, ids[i[0]], i[1])
         if p == "r":
